@@ -13,7 +13,7 @@ PROP = dict(
                 "column order cannot depend on line order (no name-derived column key with first-observation order)."),
     technique="repetition under varying GOMAXPROCS + race detector + line-permutation metamorphic relation (rapid-generated inputs)",
     rule=("C14's generator of files and flags, in one case in six with .config as the column or row axis; each case is executed Reps x {text,csv}, then once more after an unrelated invocation with other -alpha/-confidence values, and (one case in ten) compared with a run in a fresh process; an invocation whose goroutines are all parked with unchanging stacks (looked at after 20 s, three times) is an error; then benchmark lines are permuted within runs of "
-          "consecutive benchmark lines and the CSV cells compared by (table, unit, row label, column header). Non-trivial = >=8 cells in "
+          "consecutive benchmark lines and the CSV cells compared by (table, unit, row label, column header), the summary (geomean) row by (table, unit, column header) - a last-bits difference there is known finding C15-b. One case in five holds zero measurements of both signs. Non-trivial = >=8 cells in "
           ">=2 tables and >=3 different GOMAXPROCS values. Distinct = distinct case JSON."),
     assumptions=["the Go race detector reports unsynchronised conflicting accesses that are executed"],
     units=[
